@@ -3,6 +3,9 @@
 R-C20-1  the secret-owning types wipe every field when dropped (Drop + Zeroize impl field coverage; ZeroizeOnDrop witnesses)
 R-C20-2  drop-site rule: no heap-owning, non-wiping value that carries taint from a secret source is dropped (or moved into an
          external, non-wiping callee) in any crate body, on normal or unwinding paths
+R-C20-3  a vector that receives secret data is allocated once at its final size: no fallible collect of secrets, no push beyond the
+         capacity it was created with (worst path), and no content-moving operation (shrink_to_fit, reserve, resize, insert,
+         into_boxed_slice ..) on a vector that holds secrets or becomes a secret field of an owner in that very function
 """
 import re
 from bpsa.facts import callee_decl, callee_name
@@ -13,7 +16,7 @@ from . import witness, roles
 LEVEL_TEXT = ('Static ownership analysis over MIR (drop-elaborated Drop terminators, moves into external callees) with a backward '
               'secret-taint on reconstructed value terms, plus Drop/Zeroize impl field coverage and ZeroizeOnDrop witnesses. Decides that every '
               'heap-owning temporary in crate code that holds witness values, blinding factors, recovered masks, the recovery seed or prover nonces '
-              'is a wipe-on-drop type. Does not decide buffers inside dependencies, reallocation of growing vectors, or stack copies.')
+              'is a wipe-on-drop type. Vectors of secrets are created at their final size and never shrunk, reserved or resized afterwards. Does not decide buffers inside dependencies or stack copies.')
 ASSUMPTIONS = ['zeroize::Zeroizing<T> and derived ZeroizeOnDrop wipe their contents on drop (also during unwinding)',
                'group elements, transcript challenges and the response scalars of a proof are public (declassified)',
                'vectors wrapped in Zeroizing are created with their final capacity (no reallocation copy)']
